@@ -575,6 +575,13 @@ func (n *NEO) PostPersist(ic *interop.Context) error {
 	return nil
 }
 
+// markVotesChanged forces recalculation of the cached next epoch committee and
+// validators at the end of the current epoch.
+func (n *NEO) markVotesChanged(d *dao.Simple) {
+	cache := d.GetRWCache(n.ID).(*NeoCache)
+	cache.votesChanged = true
+}
+
 func (n *NEO) getLatestGASPerVote(d *dao.Simple, key []byte) big.Int {
 	var g big.Int
 	cache := d.GetROCache(n.ID).(*NeoCache)
